@@ -28,6 +28,10 @@ def evaluate(mod, cases, do_coq=True):
                 t = mod.coq_term(c, out)
             except Unrepresentable:
                 t = None
+            except Exception as e:
+                t = None
+                if not f:
+                    fails.append((i, 'harness: building the model term crashed: %s: %s' % (type(e).__name__, e)))
             if t is not None:
                 terms.append((i, t))
     return outs, fails, terms
